@@ -158,6 +158,12 @@ def generate(run_seed, tier):
             ops.append([o.choice(['list_mols', 'list_mols', 'list_kt',
                                   'load_list'])] +
                        [o.sample(allm, o.randint(1, 3))])
+        if o.random() < 0.04:
+            # storage fault: a container is cut short (torn write / partial
+            # copy); and a load with an explicit path argument
+            ops.append(['corrupt_file', o.randrange(ndirs), o.choice(mols)])
+        if o.random() < 0.05:
+            ops.append(['load_explicit', o.randrange(ndirs), o.choice(mols)])
     return {'config': cfg, 'ops': ops}
 
 
@@ -363,6 +369,7 @@ def execute(case, keep_text=False):
     def write_x(dp, rec):
         tab = xtab(rec['mol'], rec['gen'])
         path = os.path.join(dp, rec['file'])
+        rec['corrupt'] = False
         if rec['fmt'] == 'pickle':
             ST.write_pickle_xsec(path, tab)
         elif rec['fmt'] == 'hdf5':
@@ -478,6 +485,13 @@ def execute(case, keep_text=False):
                 raise Stop()
             out.bump('probes', 'missing_molecule_requested')
             return None
+        if obj is None and any(r.get('corrupt')
+                               for r in store[ref['path']]):
+            # a cut-short container in the configured directory: a request
+            # may fail (discovery opens every file); it must not serve wrong
+            # data, which the branches below still check when it succeeds
+            out.bump('probes', 'load_failed_beside_corrupt_file')
+            return None
         if obj is None:
             viol('load-failed', 'xsec:' + '+'.join(sorted(set(
                 r['fmt'] for r in cands))),
@@ -502,18 +516,18 @@ def execute(case, keep_text=False):
             return
         s = ref['served'][mol]
         T, P = interior_point(s['tab'], u, v)
-        if held:
-            # what an earlier request returned must not change under the
+        raw = obj.opacity(T, P)
+        got = np.asarray(raw, dtype=float)
+        for a_obj, a_copy, what in held:
+            # what earlier requests returned must not change under the
             # caller's feet when the cache is used again
-            a_obj, a_copy, what = held.pop()
             if not np.array_equal(np.asarray(a_obj, dtype=float), a_copy,
                                   equal_nan=True):
                 viol('result-overwritten', 'xsec', 'the array returned for %s '
                      'changed after a later request' % what, step)
                 raise Stop()
-        raw = obj.opacity(T, P)
-        got = np.asarray(raw, dtype=float)
         held.append((raw, np.array(got, copy=True), mol))
+        del held[:-6]
         mode = s.get('mode', ref['interp'])
         want = ref_interp(s['tab'], mode, T, P)
         other = ref_interp(s['tab'], 'exp' if mode == 'linear'
@@ -604,7 +618,48 @@ def execute(case, keep_text=False):
                                                   'fmt': 'mem', 'gen': -1,
                                                   'dir': None}
                     OpacityCache().load_opacity(opacities=objs)
+                elif k == 'corrupt_file':
+                    i = op[1] % len(dirpaths)
+                    hit = False
+                    for r_ in store[i]:
+                        if r_['mol'] == op[2] and r_['fmt'] in ('pickle',
+                                                                 'hdf5'):
+                            pth = os.path.join(dirpaths[i], r_['file'])
+                            n_ = os.path.getsize(pth)
+                            with open(pth, 'r+b') as fh:
+                                fh.truncate(max(1, int(n_ * 0.4)))
+                            r_['corrupt'] = True
+                            hit = True
+                    if hit:
+                        out.bump('faults', 'file_cut_short')
+                        fault_kinds.add('corrupt')
+                elif k == 'load_explicit':
+                    # a load that names a directory explicitly; whatever it
+                    # does (or fails to do), what the cache serves afterwards
+                    # must still come from the CONFIGURED path
+                    j = op[1] % len(dirpaths)
+                    try:
+                        OpacityCache().load_opacity(
+                            opacity_path=dirpaths[j],
+                            molecule_filter=[op[2]])
+                    except Exception:
+                        out.bump('probes', 'explicit_load_raised')
+                    out.bump('steps', 'explicit_loads')
+                    if GlobalCache()['xsec_path'] != (
+                            None if ref['path'] is None
+                            else dirpaths[ref['path']]):
+                        viol('configured-path-changed', 'xsec',
+                             'after load_opacity(opacity_path=...) the '
+                             'configured path is %r, it was set to %r'
+                             % (GlobalCache()['xsec_path'],
+                                None if ref['path'] is None
+                                else dirpaths[ref['path']]), step)
+                        raise Stop()
+                    do_get(step, op[2])
                 elif k == 'list_mols':
+                    if ref['path'] is not None and any(
+                            r_.get('corrupt') for r_ in store[ref['path']]):
+                        continue      # discovery may fail beside a torn file
                     got = set(OpacityCache().find_list_of_molecules())
                     want = set(ref['served'])
                     if ref['path'] is not None:
@@ -731,18 +786,21 @@ def execute(case, keep_text=False):
                     for TT, want in ((T[j], x[j]),
                                      (0.5 * (T[j] + T[j + 1]),
                                       0.5 * (x[j] + x[j + 1]))):
-                        if held_cia:
-                            a_obj, a_copy = held_cia.pop()
+                        raw = obj.cia(TT)
+                        got = np.asarray(raw, dtype=float)
+                        for a_obj, a_copy in held_cia:
+                            # every array handed out earlier is still what it
+                            # was, also after this request
                             if not np.array_equal(
                                     np.asarray(a_obj, dtype=float), a_copy,
                                     equal_nan=True):
-                                viol('result-overwritten', 'cia', 'the array '
-                                     'returned for %s changed after a later '
-                                     'request' % pair, step)
+                                viol('result-overwritten', 'cia', 'an array '
+                                     'returned by an earlier CIA request '
+                                     'changed after a later one (%s)' % pair,
+                                     step)
                                 raise Stop()
-                        raw = obj.cia(TT)
-                        got = np.asarray(raw, dtype=float)
                         held_cia.append((raw, np.array(got, copy=True)))
+                        del held_cia[:-6]
                         wns = np.sort(np.asarray(t['wn'], dtype=float))
                         if got.shape == wns.shape:
                             got = _tie_sorted(wns, got)
